@@ -12,6 +12,7 @@ var f2Flavours = []string{"generic", "oog", "revert"}
 var f3Flavours = []string{"trap", "revert", "loop"}
 
 type enumOpts struct {
+	f2one   bool // one random provider flavour per firing instead of all three
 	f2      bool
 	f3      int // number of WASM-fault runs per scenario (0 = none, -1 = all)
 	cuts    int
@@ -24,7 +25,11 @@ func faultVariants(sc *Scenario, t0 *TreeOut, o enumOpts, r *RNG) []*Scenario {
 	for txi, n := range t0.Firings {
 		for k := 1; k <= n; k++ {
 			if o.f2 {
-				for _, fl := range f2Flavours {
+				fls := f2Flavours
+				if o.f2one {
+					fls = []string{pick(r, f2Flavours)}
+				}
+				for _, fl := range fls {
 					c := sc.Clone()
 					c.Faults = append(c.Faults, Fault{Kind: "provider", Tx: txi, At: k, Arg: fl})
 					out = append(out, c)
@@ -166,7 +171,7 @@ func init() {
 			if tier == "thorough" {
 				return enumOpts{f2: true, f3: -1, cuts: cuts * 4, burns: burns}
 			}
-			return enumOpts{f2: true, f3: f3, cuts: cuts, burns: burns}
+			return enumOpts{f2: true, f2one: f3 < 2, f3: f3, cuts: cuts, burns: burns}
 		}
 	}
 	register(&Check{ID: "C04", Level: "fault_enumeration",
